@@ -52,16 +52,56 @@ Definition dir_after (c : pctx) (d : dir) (a : option (string * string)) : dir :
 Definition answer_outcome (a : option (string * string)) : outcome :=
   match a with Some (o, _) => from_result o | None => OUnknown end.
 
+Lemma app_inj_l : forall (s a b : string), (s ++ a)%string = (s ++ b)%string -> a = b.
+Proof. induction s as [|x s IH]; simpl; intros a b H; [exact H | inversion H; auto]. Qed.
+
+(* directories are compared by content (the order of independent writes does not matter) *)
+Definition dir_equiv (a b : dir) : Prop := forall n, dir_get a n = dir_get b n.
+
+(* both sides are chains of writes to <name>, <name>.out, <name>.err over the same directory *)
+Ltac dir_ext :=
+  let n := fresh "n" in
+  intro n; unfold dir_put; cbn [st_dir st_out]; cbn [dir_get];
+  repeat match goal with
+         | |- context [String.eqb ?a n] =>
+             let E := fresh "E" in destruct (String.eqb a n) eqn:E
+         end;
+  try reflexivity;
+  exfalso;
+  repeat match goal with H : String.eqb _ n = true |- _ => apply String.eqb_eq in H end;
+  repeat match goal with H : String.eqb _ n = false |- _ => clear H end;
+  match goal with
+  | H1 : ?x = n, H2 : ?y = n |- _ =>
+      rewrite <- H2 in H1;
+      first [ apply app_inj_l in H1; discriminate
+            | apply app_neq_self in H1; exact H1
+            | symmetry in H1; apply app_neq_self in H1; exact H1 ]
+  end.
+
+Ltac low_step :=
+  cbn [exec_list exec eval_cond st_dir st_out file_of negb answer_outcome];
+  rewrite ?run_dump_spec; cbn [st_dir st_out];
+  rewrite ?app_nil_r_s, ?dir_get_put_same.
+
 Lemma run_low_spec : forall solver c d,
-  run_low solver c d =
-  (Some (answer_outcome (solver (Some (query_text c)))), dir_after c d (solver (Some (query_text c)))).
+  exists d1,
+    run_low solver c d = (Some (answer_outcome (solver (Some (query_text c)))), d1) /\
+    dir_equiv d1 (dir_after c d (solver (Some (query_text c)))).
 Proof.
   intros solver c d. unfold run_low, gen_low_level.
-  cbn [exec_list exec]. rewrite run_dump_spec.
-  cbn [exec_list exec st_dir st_out file_of]. rewrite app_nil_r_s, dir_get_put_same.
-  destruct (solver (Some (query_text c))) as [[o e]|]; [|reflexivity].
-  cbn [exec_list exec eval_cond st_dir st_out file_of answer_outcome dir_after].
-  destruct (String.eqb e "") eqn:Ee; cbn [negb exec_list exec st_dir st_out file_of]; reflexivity.
+  (* evaluate the regenerated program statement by statement; split on whatever it inspects:
+     the presence of a file in the (arbitrary) directory, the solver's answer, its stderr *)
+  repeat (low_step;
+          try match goal with
+              | |- context [match dir_get d ?nn with _ => _ end] =>
+                  let E := fresh "Ed" in destruct (dir_get d nn) eqn:E
+              | |- context [match solver ?q with _ => _ end] =>
+                  let E := fresh "Es" in destruct (solver q) as [[? ?]|] eqn:E
+              | |- context [String.eqb ?e ""] =>
+                  let E := fresh "Ee" in destruct (String.eqb e "") eqn:E
+              end).
+  all: eexists; (split; [reflexivity|]); unfold dir_equiv, dir_after;
+       repeat match goal with H : String.eqb _ "" = _ |- _ => rewrite ?H; clear H end; dir_ext.
 Qed.
 
 Lemma answer_outcome_text : forall solver q,
@@ -81,9 +121,6 @@ Proof.
     rewrite dir_get_put_other by apply eqb_app_self. apply dir_get_put_same.
 Qed.
 
-Lemma app_inj_l : forall (s a b : string), (s ++ a)%string = (s ++ b)%string -> a = b.
-Proof. induction s as [|x s IH]; simpl; intros a b H; [exact H | inversion H; auto]. Qed.
-
 Lemma dir_after_out : forall c d o e,
   dir_get (dir_after c d (Some (o, e))) (dump_name c ++ ".out") = Some o.
 Proof.
@@ -101,9 +138,9 @@ Lemma run_low_current_query : forall solver c d,
     (forall o e, solver (Some (query_text c)) = Some (o, e) ->
                  dir_get d1 (dump_name c ++ ".out") = Some o).
 Proof.
-  intros solver c d. exists (dir_after c d (solver (Some (query_text c)))).
-  rewrite run_low_spec. split; [reflexivity|]. split; [apply dir_after_query|].
-  intros o e H. rewrite H. apply dir_after_out.
+  intros solver c d. destruct (run_low_spec solver c d) as [d1 [H1 H2]].
+  exists d1. split; [exact H1|]. split; [rewrite H2; apply dir_after_query|].
+  intros o e H. rewrite H2, H. apply dir_after_out.
 Qed.
 
 (* ------------------------------------------------------------------ solve_end_to_end *)
@@ -118,13 +155,14 @@ Lemma solve_e2e_fs_spec : forall solver rf core_hit c d,
 Proof.
   intros solver rf core_hit c d. unfold solve_e2e_fs, solve_e2e, refine_changes.
   destruct core_hit; [reflexivity|].
-  rewrite run_low_spec, answer_outcome_text.
+  destruct (run_low_spec solver c d) as [d1 [-> _]]. rewrite answer_outcome_text.
   destruct (from_result (answer_text solver (query_text c))) as [|v s| |]; try reflexivity.
   destruct v; [reflexivity|].
   destruct (refined c); cbn [negb]; [reflexivity|].
   cbn [refine_ctx smtlib].
   destruct (negb (String.eqb (rf (smtlib c)) (smtlib c))); [|reflexivity].
-  rewrite run_low_spec, answer_outcome_text. reflexivity.
+  destruct (run_low_spec solver (refine_ctx rf c) d1) as [d2 [H2 _]].
+  cbn [refine_ctx] in H2. rewrite H2, answer_outcome_text. reflexivity.
 Qed.
 
 (* the outcome does not depend on what the directory held *)
